@@ -39,7 +39,7 @@ ASSUMPTIONS = [
 FAMS = ['constant', 'identity', 'monomial', 'legendre', 'sin', 'cos', 'gauss']
 # user-defined elementary functions of two coordinates ("functions must be derived from data_driven.transform.Function"): their
 # Hessians have mixed entries, which none of the library's own one-coordinate classes has
-PAIR_FAMS = ['pair_product', 'sin_sum']
+PAIR_FAMS = ['pair_product', 'sin_sum', 'norm2']          # (norm2 = sum_i x_i^2: reduces over the whole point)
 
 
 class PairFunction(tdt.Function):
@@ -55,18 +55,24 @@ class PairFunction(tdt.Function):
 
     def __call__(self, t):
         self.check_call_input(t)
+        if self.kind == 'norm2':
+            return float(np.sum(np.asarray(t, dtype=float) ** 2))          # (a point is a vector of length d: no axis argument)
         if self.kind == 'pair_product':
             return t[self.i] * t[self.j]
         return np.sin(t[self.i] + self.c * t[self.j])
 
     def partial(self, t, direction):
         self.check_partial_input(t, direction)
+        if self.kind == 'norm2':
+            return 2.0 * t[direction]
         if self.kind == 'pair_product':
             return (t[self.j] if direction == self.i else 0.0) + (t[self.i] if direction == self.j else 0.0)
         return self._w(direction) * np.cos(t[self.i] + self.c * t[self.j])
 
     def partial2(self, t, direction1, direction2):
         self.check_partial2_input(t, direction1, direction2)
+        if self.kind == 'norm2':
+            return 2.0 if direction1 == direction2 else 0.0
         if self.kind == 'pair_product':
             return (1.0 if (direction1, direction2) == (self.i, self.j) else 0.0) + (1.0 if (direction1, direction2) == (self.j, self.i) else 0.0)
         return -self._w(direction1) * self._w(direction2) * np.sin(t[self.i] + self.c * t[self.j])
@@ -144,6 +150,9 @@ def vgh(s, x):
     """value, gradient (d,) and Hessian (d,d) of one elementary function at the point x (independent closed forms)"""
     d = len(x)
     g, H = np.zeros(d), np.zeros((d, d))
+    if s['family'] == 'norm2':
+        xx = np.asarray(x, dtype=float)
+        return float(xx @ xx), 2.0 * xx, 2.0 * np.eye(d)
     if s['family'] == 'pair_product':
         i, j = s['index'], s['index2']
         g[i], g[j] = x[j], x[i]
@@ -265,7 +274,9 @@ def tgedmd_case(draw):
               'return_option': draw(st.sampled_from(['eigenfunctionevals', 'eigenvectors', 'eigentensors'])),
               'num_eigvals': draw(st.sampled_from([None, None, 1, 2, 3])),
               # snapshots exactly on special points of the basis functions (lattice data): zeros of factors, stationary points
-              'special_points': draw(st.sampled_from([False, False, True])), 'zero_drift': draw(st.sampled_from([False, False, False, True]))})
+              'special_points': draw(st.sampled_from([False, False, True])), 'zero_drift': draw(st.sampled_from([False, False, False, True])),
+              # the progress option (a message every output_freq snapshots) must not change the result
+              'output_freq': draw(st.sampled_from([None, None, 3, 7, 40]))})
     return c
 
 
@@ -379,6 +390,8 @@ def body_tgedmd(c):
         kw['num_eigvals'] = c['num_eigvals']
     if c.get('max_rank'):
         kw['max_rank'] = c['max_rank']            # (1000: a cap above every rank is a no-op; 2..4 may bind)
+    if c.get('output_freq'):
+        kw['output_freq'] = c['output_freq']
     snap_X, snap_s = X.copy(), sigma.copy()
     used_before = c['seed'] % 4 == 0
     if used_before:
@@ -430,6 +443,8 @@ def body_tgedmd(c):
         lab.add('max_rank_binds')
     if used_before:
         lab.add('basis_used_before')
+    if c.get('output_freq'):
+        lab.add('progress_output_requested')
     return lab
 
 
